@@ -387,6 +387,17 @@ int main(int argc, char **argv) {
                         prev >> 16, prev & 0xFFFF, rhi, rlo, b->begun ? 1 : 0, b->Ni >> 16, b->Ni & 0xFFFF,
                         (long long)when - (long long)vp_now_ms, b->r);
                 ev_end();
+            } else if (!strcmp(c, "ENEW")) {
+                /* the enumeration event "new session" as the frame path performs it, without a frame:
+                 * RepeatBand is (re)started when idle, marked begun otherwise */
+                band_state *b = (band_state *)cur->enumerationAutomata->extra;
+                if (cur->enumerationAutomata->current_state == 0) { band_init_stats(b); band_choose_hello_time(b); }
+                else b->begun = true;
+                switch_state_enumeration(cur->enumerationAutomata, enum_new_session, "verif");
+                ev_begin("heard");
+                fprintf(tr, "\"n\":0,");
+                log_state();
+                ev_end();
             } else if (!strcmp(c, "HEARD")) {
                 band_state *b = (band_state *)cur->enumerationAutomata->extra;
                 long n = nt > 1 ? strtol(tok[1], NULL, 0) : 1;
